@@ -1,7 +1,7 @@
 """Build the tree under test in place (DESIGN.md 3.1).
 
 ensure() makes the compiled extension modules of REPO correspond to REPO's current working
-tree.  It is serialised by an exclusive flock so that concurrent checks wait for one build
+tree.  It is serialised by an exclusive flock (one per tree) so that concurrent checks wait for one build
 instead of racing the compiler.  REPO is /repo unless VERIF_REPO names another tree (used for
 mutation worktrees only)."""
 import fcntl, hashlib, json, os, subprocess, sys, time, glob
@@ -66,7 +66,7 @@ def ensure(verbose=True):
     if os.environ.get('VERIF_NOBUILD') == '1':   # mutation worktrees that are already built
         return False
     os.makedirs(CACHE, exist_ok=True)
-    lock = open(os.path.join(CACHE, 'build.lock'), 'w')
+    lock = open(os.path.join(CACHE, 'build_%s.lock' % hashlib.sha1(REPO.encode()).hexdigest()[:10]), 'w')    # one lock per tree
     fcntl.flock(lock, fcntl.LOCK_EX)
     try:
         cur = _state()
